@@ -60,9 +60,10 @@ IsIterable(r) == ~r.hosts \/ r.last - r.first >= 3
 
 (* the ways a range is derived; uniform record shape [k, a, b] so that TLC can compare them *)
 Sources == [k : {"prefix"}, a : Addr, b : 0..W] \cup [k : {"mask"}, a : Addr, b : Addr]
-           \cup {s \in [k : {"pair"}, a : Addr, b : Addr] : s.a <= s.b}
+           \cup {s \in [k : {"pair", "pairhosts"}, a : Addr, b : Addr] : s.a <= s.b}       \* pairhosts: AddressRange(first, last, only_hosts = true)
 RangeOf(s) == CASE s.k = "prefix" -> FromPrefix(s.a, s.b)
                 [] s.k = "mask"   -> FromMask(s.a, s.b)
                 [] s.k = "pair"   -> Explicit(s.a, s.b)
+                [] s.k = "pairhosts" -> [first |-> s.a, last |-> s.b, hosts |-> TRUE]
 IterSeqsOf(s) == IF s.k = "mask" THEN MaskIterSeqs(RangeOf(s), s.b) ELSE {IterSeq(RangeOf(s))}
 =============================================================================
